@@ -17,9 +17,24 @@ def wlS (w : WL) : String :=
 
 def atS (m : AtMap) : String := bracket ((sortBy (·.1) m).map fun x => s!"{x.1}@{x.2}")
 
-def dump (s : St) : String :=
+def phNum : Phase → Nat
+  | .idle => 0
+  | .pre => 1
+  | .snap .. => 2
+  | .built .. => 3
+  | .flight .. => 4
+
+def dump (loop : Bool) (s : St) (caps : Bool := true) : String :=
   s!"pp={wlS s.q.peer.pending} ps={wlS s.q.peer.sent} bp={wlS s.q.bcst.pending} bs={wlS s.q.bcst.sent} " ++
-  s!"pat={atS s.q.peer.sentAt} bat={atS s.q.bcst.sentAt} cx={bracket (s.q.cancels.map toString)} n={seqOf s.q.prio}"
+  s!"pat={atS s.q.peer.sentAt} bat={atS s.q.bcst.sentAt} cx={bracket (s.q.cancels.map toString)} n={seqOf s.q.prio} " ++
+  s!"sig={if loop || !caps then "-" else if s.sig then "1" else "0"} ph={phNum s.ph}"
+
+/-- loop mode: the run loop takes an outstanding work signal as soon as it listens again -/
+def settle (cfg : Cfg) (s : St) : St :=
+  if isIdle s.ph then
+    let s1 := if s.armed then step cfg s .timer else s
+    if s1.sig && s1.loopOn then step cfg s1 .wake else s1
+  else s
 
 def peerS (s : St) : String := "P=" ++ bracket ((sortBy (·.cid) s.peerWL).map fun e => s!"{e.cid}:{tyS e.ty}")
 
@@ -32,8 +47,8 @@ def parseList (t : String) : Option (List Nat) :=
 
 def hasWork (s : St) : Bool := !s.q.peer.pending.isEmpty || !s.q.bcst.pending.isEmpty || !s.q.cancels.isEmpty
 
-def stepA (cfg : Cfg) (s : St) : St × String :=
-  if isIdleOrPre s.ph then
+def stepA (cfg : Cfg) (loop : Bool) (s : St) : St × String :=
+  if isIdleOrPre s.ph && !(loop && isIdle s.ph) then
     let s' := doSnap cfg s (snapCancels (snapQ cfg s.q))
     match s'.ph with
     | .snap pe be cs => (s', s!"A {cs.length} {pe.length} {be.length}")
@@ -62,19 +77,20 @@ def stepD (s : St) : St × String :=
     (s', "D " ++ peerS s')
   else (s, "noop")
 
-def drain (cfg : Cfg) : Nat → St → List String → St × List String
+def drain (cfg : Cfg) (loop : Bool) : Nat → St → List String → St × List String
   | 0, s, ms => (s, ms)
-  | fuel + 1, s, ms =>
-    if isIdle s.ph && !hasWork s then (s, ms)
+  | fuel + 1, s0, ms =>
+    let s := if loop then settle cfg s0 else s0
+    if isIdle s.ph && (loop || !hasWork s) then (s, ms)
     else match s.ph with
-      | .idle | .pre => drain cfg fuel (stepA cfg s).1 ms
-      | .snap .. => drain cfg fuel (stepB cfg s).1 ms
+      | .idle | .pre => drain cfg loop fuel (stepA cfg loop s).1 ms
+      | .snap .. => drain cfg loop fuel (stepB cfg s).1 ms
       | .built .. =>
         let r := stepC s
-        drain cfg fuel r.1 (if r.2 == "C empty" then ms else ms ++ [(r.2.drop 2).toString])
-      | .flight .. => drain cfg fuel (stepD s).1 ms
+        drain cfg loop fuel r.1 (if r.2 == "C empty" then ms else ms ++ [(r.2.drop 2).toString])
+      | .flight .. => drain cfg loop fuel (stepD s).1 ms
 
-abbrev DSt := Option (Cfg × St)
+abbrev DSt := Option (Cfg × St × Bool × Bool)
 
 def lensFn (ls : List Nat) : Nat → Nat := fun i => ls.getD i 0
 
@@ -87,13 +103,15 @@ def stepLine (d : DSt) (line : String) : DSt × String :=
     | some m, some ls =>
       let cfg : Cfg := { maxSize := m, supportsHave := hv == "1", cidLen := lensFn ls }
       let s : St := {}
-      (some (cfg, s), "ok | " ++ dump s)
+      (some (cfg, s, false, false), "ok | " ++ dump false s false)
     | _, _ => (d, "bad-op")
   | toks =>
     match d with
     | none => (d, "bad-op")
-    | some (cfg, s) =>
-      let fin (r : St × String) : DSt × String := (some (cfg, r.1), r.2 ++ " | " ++ dump r.1)
+    | some (cfg, s, loop, caps) =>
+      let fin (r : St × String) : DSt × String :=
+        let s' := if loop then settle cfg r.1 else r.1
+        (some (cfg, s', loop, caps), r.2 ++ " | " ++ dump loop s' caps)
       match toks with
       | ["want", b, h] =>
         match parseList b, parseList h with
@@ -107,24 +125,26 @@ def stepLine (d : DSt) (line : String) : DSt × String :=
         match parseList l with
         | some cs => fin (addCancels s cs, "ok")
         | none => (d, "bad-op")
+      | ["caps", _] => (some (cfg, s, loop, true), "ok | " ++ dump loop s true)
+      | ["loop"] => (some (cfg, s, true, caps), "ok | " ++ dump true s caps)
       | ["resp", l] =>
         match parseList l with
-        | some cs => fin (response s cs, "ok")
+        | some cs => if loop && !isIdle s.ph then fin (s, "noop") else fin (response s cs, "ok")
         | none => (d, "bad-op")
       | ["rf", k] =>
         match k.toNat? with
         | some k =>
           if isIdle s.ph then
-            let s' := doRefresh s k
+            let s' := doRefresh s (if loop then s.clock else k)
             fin (s', if isIdle s'.ph then "rf none" else "rf pre")
           else fin (s, "noop")
         | none => (d, "bad-op")
-      | ["sA"] => fin (stepA cfg s)
+      | ["sA"] => fin (stepA cfg loop s)
       | ["sB"] => fin (stepB cfg s)
       | ["sC"] => fin (stepC s)
       | ["sD"] => fin (stepD s)
       | ["drain"] =>
-        let r := drain cfg 200 s []
+        let r := drain cfg loop 200 s []
         fin (r.1, "drain " ++ "|".intercalate r.2 ++ " " ++ peerS r.1)
       | _ => (d, "bad-op")
 
